@@ -14,6 +14,7 @@ from ..flow import Flow
 from ..nullstate import NullState
 from . import common
 from .. import rules as R
+from .. import regions as G
 from .. import exceptions as X
 
 EXPLANATION = (
@@ -419,6 +420,61 @@ def c5_readyok_quit(fb, rep, cg):
             if ap(e2) == 'this.quit' and (truth == pol2):
                 return ['quitcmd']
             return [c]
+        # no input line is dropped: after a read, the loop is left without dispatching only if nothing was read - the exit
+        # is guarded by a test that the line is empty or that the read failed outright (failbit).  `!is.good()` alone is
+        # also true when the last line arrived without a newline (eofbit with characters extracted): that command -
+        # an isready, a go - would never be answered
+        reads = [(b, i, e) for b, i, e in ml.events() if e.get('k') == 'call' and cname(e).split('::')[-1] == 'getline']
+        rep.floor(clause, 'line reads in the protocol loop', len(reads), 1)
+        for rb, ri, re_ in reads:
+            line_arg = _strip_c((re_.get('args') or [None, None])[1] if len(re_.get('args') or []) > 1 else None)
+            lid = line_arg.get('id') if isinstance(line_arg, dict) else None
+
+            def is_dispatch(x):
+                return x is not None and x.get('k') == 'call' and cname(x) == 'UCIProtocol::handleCommand'
+            # the skip region: blocks from which the exit is reachable but no dispatch (before the next read)
+            def is_read(x):
+                return x is not None and x.get('k') == 'call' and cname(x).split('::')[-1] == 'getline'
+            skip = set()
+            for bid in ml.blocks:
+                if bid in ml.dead or bid == rb or not G_reaches(ml, rb, bid):
+                    continue
+                to_exit = ml.path_avoiding((bid, -1), R.at_exit, lambda x: is_dispatch(x) or is_read(x)) is not None
+                to_disp = ml.path_avoiding((bid, -1), is_dispatch, is_read) is not None
+                if to_exit and not to_disp and not any(is_dispatch(e_) for e_ in ml.blocks[bid]['ev']):
+                    skip.add(bid)
+            entries = [b_ for b_ in sorted(skip) if any(p_ not in skip and (p_ == rb or G_reaches(ml, rb, p_)) for p_ in ml.preds.get(b_, []))]
+            ok_all = bool(entries)
+            details = []
+            for b_ in entries:
+                gs = G.guard_trees(ml, set(ml.blocks), b_)
+                if any(ap(_strip_c(c2)) == 'this.quit' and side2 for c2, side2 in gs):
+                    continue        # the quit command: it was dispatched
+                good = False
+                for c2, side2 in gs:
+                    c2 = _strip_c(c2)
+                    if isinstance(c2, dict) and c2.get('k') == 'call':
+                        last = cname(c2).split('::')[-1]
+                        if last == 'empty' and side2 and (_strip_c(c2.get('recv')) or {}).get('id') == lid:
+                            good = True
+                        if last in ('fail', 'bad') and side2:
+                            good = True
+                        if last == 'operator bool' and not side2 and any(is_read(n_) for n_ in walk(c2)):
+                            good = True
+                details.append(' && '.join(('' if s2 else '!') + show(c2, 40) for c2, s2 in gs))
+                ok_all = ok_all and good
+            rep.ob(clause, 'K4 guard', 'protocol loop: a line that was read is dispatched; the loop is left without dispatching only when nothing was read (empty line or failbit)',
+                   ok_all, R.site(ml, re_), 'exits taken without dispatching: %s' % details, ml.sname)
+            # an emptiness test speaks about *this* read only if the string was emptied before it: getline does not touch
+            # the string once the stream has failed, so a stale line would be dispatched again and again (a busy loop)
+            uses_empty = any('empty' in d for d in details)
+            if uses_empty:
+                def is_clear(x):
+                    return x is not None and x.get('k') == 'call' and cname(x).split('::')[-1] in ('clear', 'erase') and (_strip_c(x.get('recv')) or {}).get('id') == lid
+                stale = [1 for b2, i2, e2 in ml.events() if is_dispatch(e2) and
+                         ml.path_avoiding((b2, i2), lambda x: x is re_, is_clear) is not None]
+                rep.ob(clause, 'K2 must-precede', 'protocol loop: the line is emptied before every read after a dispatch (getline leaves it alone on a failed stream)', not stale,
+                       R.site(ml, re_), '%d dispatch(es) can reach the next read without clearing the line' % len(stale), ml.sname)
         seen_q = []
         Flow(ml, tr_q, rf_q).run({'open'})
         okq = bool(seen_q) and set(seen_q) <= {'stopped', 'noengine', 'quitcmd'}
@@ -845,6 +901,11 @@ def c14_limited_strength_single_thread(fb, rep):
         ok = p_ in gparams or all(cov for _, cov in reads)
         rep.ob(clause, 'K10 site agreement', 'the strength-limiting parameter %s forces a single search thread' % p_, ok, ss.where,
                'single-thread guard reads %s (bare switches %s); %s is read in %s' % (sorted(gparams), sorted(bare), p_, sorted({fn for fn, _ in reads})), ss.sname)
+
+
+def G_reaches(f, a, b):
+    from .. import regions as G_
+    return G_._reaches(f, a, b)
 
 
 def _strip_c(t):
